@@ -12,17 +12,16 @@ The verdict `c18Verdict` is the monitor of the `buflog` family (`c18Walk`: gap-f
 reported `durable_index` present with identical content, reloaded log = a run of consecutive entries of the log as
 it was at some earlier moment) applied to the model's own run. `C18Statement` = the verdict is clean for every case.
 
-As the code is (fixes F7, F17 and F72 in) the statement is **false**, for three independent reasons, each with a
-kernel-checked witness that is replayed on the real code by the corpus:
-* `false_restart_unsynced` (F73), `false_io_race` (F75), `false_filestore` (F74).
-The witness of F72 (stale `pending_max`, fixed by 95c6d63) is clean now: `stalePending_clean`.
+As the code is now (fixes F7, F17, F72 = 95c6d63, F73 = 466194e, F75 = 5a41097 + 33a6e3d in) one reason is left
+why the statement is **false**: `false_filestore` (F74, `FileLogStore` cuts its file by position), kernel-checked and
+replayed on the real code by the corpus. The former witnesses of F72, F73, F75 are clean: `stalePending_clean`,
+`restartUnsynced_clean`, `ioRace_clean`.
 
-Positive part, under exactly those excluded triggers — `crash_recovery_partial`: over the reference store, for every
-well-formed operation list run with the default arm order (command arm first, no timer tick forced while an operation
-waits), a crash after the run (or after any prefix of it) — process crash or power loss — reloads a gap-free log that
-contains every entry at or below the reported `durable_index` with identical content and is a run of consecutive
-entries of an earlier log. Proof: invariant `StoreOk` between operations (`execOp_storeOk`), `recovered_ok` at the
-crash.
+Positive part — `crash_recovery_partial`: over the reference store, for every well-formed operation list, **every
+arm order** of the IO loop and timer ticks anywhere (`Op.validSched`: the order lists all three arms), a crash after
+the run (or after any prefix of it) — process crash or power loss — reloads a gap-free log that contains every entry
+at or below the reported `durable_index` with identical content and is a run of consecutive entries of an earlier
+log. Proof: invariant `StoreOk` between operations (`execOp_storeOk`), `recovered_ok` at the crash.
 -/
 namespace DEngine.C18
 open DEngine.BufLog
@@ -32,10 +31,10 @@ def snapsOf (sim : Bool) : Sys → List Op → List (String × Snap)
   | _, [] => []
   | s, op :: ops => let s' := (execOp s op).1; ("", s'.buf.snap s'.store sim) :: snapsOf sim s' ops
 
-def initSys (sim : Bool) : Sys := { keepBoundary := sim, file := if sim then none else some {} }
+def initSys (sim : Bool) : Sys := { keepBoundary := true, file := if sim then none else some {} }
 
 /-- verdict of the C18 monitor on the model's run of a case -/
-def c18Verdict (c : Case) : Option String := (c18Walk {} [[]] emptySnap c.ops (snapsOf c.sim (initSys c.sim) c.ops) 0).1
+def c18Verdict (c : Case) : Option String := (c18Walk {} [[]] emptySnap c.ops (snapsOf c.sim (initSys (c.sim || c.rocks)) c.ops) 0).1
 
 /-- **C18, full statement**: whatever the operations, the IO schedule and the crash points. -/
 def C18Statement : Prop := ∀ c : Case, c18Verdict c = none
@@ -62,14 +61,12 @@ def fileStore : Case := { sim := false, ops :=
 
 /-- regression of F72 (fix 95c6d63 lowers `pending_max` and `durable_index` when the ReplaceRange is handled) -/
 theorem stalePending_clean : c18Verdict stalePending = none := by decide +kernel
-theorem restartUnsynced_verdict : c18Verdict restartUnsynced = some "c18-durable-not-synced" := by decide +kernel
-theorem ioRace_verdict : c18Verdict ioRace = some "c18-resurrected-entry" := by decide +kernel
+/-- regression of F73 (fix 466194e: `new` fsyncs what it finds before reporting it durable) -/
+theorem restartUnsynced_clean : c18Verdict restartUnsynced = none := by decide +kernel
+/-- regression of F75 (fixes 5a41097 + 33a6e3d: a queued command is applied before anything is persisted) -/
+theorem ioRace_clean : c18Verdict ioRace = none := by decide +kernel
 theorem fileStore_verdict : c18Verdict fileStore = some "c18-resurrected-entry" := by decide +kernel
 
-theorem false_restart_unsynced : ¬ C18Statement := fun h => by
-  have := h restartUnsynced; rw [restartUnsynced_verdict] at this; cases this
-theorem false_io_race : ¬ C18Statement := fun h => by
-  have := h ioRace; rw [ioRace_verdict] at this; cases this
 theorem false_filestore : ¬ C18Statement := fun h => by
   have := h fileStore; rw [fileStore_verdict] at this; cases this
 
@@ -89,13 +86,13 @@ def histRun : Sys → List Op → List (List Entry) → List (List Entry)
   | s, op :: ops, h => histRun (execOp s op).1 ops ((execOp s op).1.buf.mem :: h)
 
 theorem storeOk_init : StoreOk ({} : Sys) [[]] :=
-  { file := rfl, queue := rfl, timer := rfl, alive := rfl, inv := Buf.Inv.init,
+  { file := rfl, kb := rfl, bnd := ⟨rfl, rfl⟩, dImg := ⟨rfl, by simp, by simp⟩, queue := rfl, alive := rfl, inv := Buf.Inv.init,
     vol := ⟨Sorted.nil, by simp, by simp⟩, full := by simp, closed := by simp, dTop := by simp [Buf.top],
     pTop := by simp [Buf.top], dHist := by simp, dDur := by simp, memHist := by simp,
     histOk := by intro h hh; simp at hh; subst hh; exact ⟨0, rfl⟩ }
 
 theorem run_storeOk : ∀ (ops : List Op) (s : Sys) (hist : List (List Entry)), StoreOk s hist → [] ∈ hist →
-    wfRun s.buf.abs ops = true → ops.all Op.plainSched = true →
+    wfRun s.buf.abs ops = true → ops.all Op.validSched = true →
     StoreOk (Sys.run s ops).1 (histRun s ops hist) := by
   intro ops
   induction ops with
@@ -112,7 +109,7 @@ theorem run_storeOk : ∀ (ops : List Op) (s : Sys) (hist : List (List Entry)), 
 
 /-- **C18, positive part under the excluded triggers** (reference store). -/
 theorem crash_recovery_partial (ops : List Op) (hwf : wfRun {} ops = true)
-    (hplain : ops.all Op.plainSched = true) (power : Bool) :
+    (hplain : ops.all Op.validSched = true) (power : Bool) :
     recoveredOk (histRun {} ops [[]]) (Sys.run {} ops).1.buf.mem (Sys.run {} ops).1.buf.durable
       ((Sys.run {} ops).1.reopen power).buf.mem (Sys.run {} ops).1.store.v.ents
       (some (Sys.run {} ops).1.store.d.ents) = none :=
@@ -120,25 +117,78 @@ theorem crash_recovery_partial (ops : List Op) (hwf : wfRun {} ops = true)
 
 /-- every crash point between two operations of such a run is covered -/
 theorem crash_recovery_partial_prefix (ops : List Op) (hwf : wfRun {} ops = true)
-    (hplain : ops.all Op.plainSched = true) (n : Nat) (power : Bool) :
+    (hplain : ops.all Op.validSched = true) (n : Nat) (power : Bool) :
     recoveredOk (histRun {} (ops.take n) [[]]) (Sys.run {} (ops.take n)).1.buf.mem (Sys.run {} (ops.take n)).1.buf.durable
       ((Sys.run {} (ops.take n)).1.reopen power).buf.mem (Sys.run {} (ops.take n)).1.store.v.ents
       (some (Sys.run {} (ops.take n)).1.store.d.ents) = none :=
   crash_recovery_partial (ops.take n) (C19.wfRun_take ops {} n hwf)
     (by simp only [List.all_eq_true] at hplain ⊢; exact fun x hx => hplain x (List.mem_of_mem_take hx)) power
 
-/-- non-vacuity: appends, a flush, a conflict truncation below `durable_index`, a re-append, a purge, an IO step with
-    a timer tick — all hypotheses hold, and the log is not empty at the crash -/
-def partialDemo : List Op :=
-  [ .append [e 1 1 0, e 2 1 0, e 3 1 0, e 4 1 0], .flush {}, .fca 2 1 [e 3 2 1] {}, .append [e 4 2 2],
-    .purge 1 1 {}, .io { clock := true }, .fca 4 2 [e 5 2 3, e 6 3 4] {} ]
+/-! ### crashes inside the run: recovery is itself the start of a run -/
 
-example : wfRun {} partialDemo = true ∧ partialDemo.all Op.plainSched = true ∧
+/-- An operation is admissible in the state it meets: a crash always is (either kind); anything else must be
+    well-formed with respect to the log as it is then — after a recovery: the recovered log — and list every arm. -/
+def okOp (s : Sys) (op : Op) : Bool :=
+  match op with
+  | .crash _ => true
+  | _ => wfOp s.buf.abs op && op.validSched
+
+def okRun : Sys → List Op → Bool
+  | _, [] => true
+  | s, op :: ops => okOp s op && okRun (execOp s op).1 ops
+
+theorem run_storeOk_crashes : ∀ (ops : List Op) (s : Sys) (hist : List (List Entry)), StoreOk s hist → [] ∈ hist →
+    okRun s ops = true → StoreOk (Sys.run s ops).1 (histRun s ops hist) := by
+  intro ops
+  induction ops with
+  | nil => intro s hist h _ _; exact h
+  | cons op ops ih =>
+    intro s hist h hnil hok
+    simp only [okRun, Bool.and_eq_true] at hok
+    simp only [Sys.run, histRun]
+    refine ih (execOp s op).1 _ ?_ (List.mem_cons_of_mem _ hnil) hok.2
+    cases op with
+    | crash power => exact h.reopen power
+    | append es => have := hok.1; simp only [okOp, Bool.and_eq_true] at this; exact execOp_storeOk h hnil this.1 this.2
+    | fca a b c d => have := hok.1; simp only [okOp, Bool.and_eq_true] at this; exact execOp_storeOk h hnil this.1 this.2
+    | purge a b c => have := hok.1; simp only [okOp, Bool.and_eq_true] at this; exact execOp_storeOk h hnil this.1 this.2
+    | reset a => have := hok.1; simp only [okOp, Bool.and_eq_true] at this; exact execOp_storeOk h hnil this.1 this.2
+    | flush a => have := hok.1; simp only [okOp, Bool.and_eq_true] at this; exact execOp_storeOk h hnil this.1 this.2
+    | alloc a => have := hok.1; simp only [okOp, Bool.and_eq_true] at this; exact execOp_storeOk h hnil this.1 this.2
+    | get a b => have := hok.1; simp only [okOp, Bool.and_eq_true] at this; exact execOp_storeOk h hnil this.1 this.2
+    | io a => have := hok.1; simp only [okOp, Bool.and_eq_true] at this; exact execOp_storeOk h hnil this.1 this.2
+    | close a => have := hok.1; simp [okOp, Op.validSched] at this
+
+/-- **C18 over the reference store, crashes anywhere**: any number of crashes of either kind inside the run, every
+    arm order; the log reloaded by the last crash passes the three clauses. -/
+theorem crash_recovery_general (ops : List Op) (hok : okRun {} ops = true) (power : Bool) :
+    recoveredOk (histRun {} ops [[]]) (Sys.run {} ops).1.buf.mem (Sys.run {} ops).1.buf.durable
+      ((Sys.run {} ops).1.reopen power).buf.mem (Sys.run {} ops).1.store.v.ents
+      (some (Sys.run {} ops).1.store.d.ents) = none :=
+  recovered_ok (run_storeOk_crashes ops {} [[]] storeOk_init (by simp) hok) power
+
+/-- non-vacuity: a process crash, more operations on the recovered log, a power loss, more operations -/
+def crashesDemo : List Op :=
+  [ .append [e 1 1 0, e 2 1 0], .flush {}, .fca 1 1 [e 2 2 1] {}, .crash false, .append [e 3 2 2], .io {},
+    .crash true, .fca 3 2 [e 4 3 3] tcn ]
+
+example : okRun {} crashesDemo = true ∧ (Sys.run {} crashesDemo).1.buf.mem = [e 1 1 0, e 2 2 1, e 3 2 2, e 4 3 3] := by
+  decide +kernel
+
+/-- non-vacuity: appends, a flush, a conflict truncation below `durable_index` with the timer arm meant to go first,
+    a re-append, a purge with the notify arm meant to go first, an IO step with a timer tick — all hypotheses hold,
+    and the log is not empty at the crash -/
+def partialDemo : List Op :=
+  [ .append [e 1 1 0, e 2 1 0, e 3 1 0, e 4 1 0], .flush {}, .fca 2 1 [e 3 2 1] tcn, .append [e 4 2 2],
+    .purge 1 1 { prio := [.notify, .timer, .cmd] }, .io { clock := true }, .fca 4 2 [e 5 2 3, e 6 3 4] {} ]
+
+example : wfRun {} partialDemo = true ∧ partialDemo.all Op.validSched = true ∧
     (Sys.run {} partialDemo).1.buf.mem.length = 5 ∧
     (Sys.run {} partialDemo).1.buf.durable = 4 := by decide +kernel
 
-/-- the former F72 witness satisfies the hypotheses: it is covered by the theorem now -/
-example : wfRun {} (stalePending.ops.take 7) = true ∧ (stalePending.ops.take 7).all Op.plainSched = true := by
+/-- the former F72 and F75 witnesses satisfy the hypotheses: it is covered by the theorem now -/
+example : wfRun {} (stalePending.ops.take 7) = true ∧ (stalePending.ops.take 7).all Op.validSched = true ∧
+    wfRun {} (ioRace.ops.take 3) = true ∧ (ioRace.ops.take 3).all Op.validSched = true := by
   decide +kernel
 
 end DEngine.C18
